@@ -135,6 +135,7 @@ class ApiWorld(ClientWorld):
         c = Call(len(self.calls), api, spec, self.step, self.clock.seconds())
         c.journal_mark = len(self.net.journal)
         c.after_close = self.close_step is not None
+        c.kw = dict(kw or {})
         self.calls.append(c)
         cl = self.client
         try:
@@ -424,6 +425,27 @@ class ApiWorld(ClientWorld):
             self.viol("routing", "request-carries-foreign-payload",
                       "call %d (%s) put %r on the wire, payloads supplied %r" % (c.idx, c.api, extra, keys))
         res = c.result
+        if c.api == "produce" and getattr(c, "kw", {}).get("acks", 1) == 0:
+            # no acknowledgements: success is the empty result, and means that every payload was handed to a
+            # connection; a FailedPayloadsError names exactly the payloads that were not
+            if isinstance(res, Failure):
+                if res.check(FailedPayloadsError):
+                    failed = [(p.topic, p.partition) for p, _f in res.value.failed_payloads]
+                    unsent = [k for k in keys if k not in sent]
+                    if sorted(failed) != sorted(unsent) or list(res.value.responses):
+                        self.viol("partial-failure", "acks0-failed-payloads-are-not-the-unsent-ones",
+                                  "call %d (produce, acks=0): payloads %r; written to a connection %r; failed "
+                                  "payloads %r, responses %r" % (c.idx, keys, sorted(sent), failed,
+                                                                 list(res.value.responses)))
+                return
+            if isinstance(res, Exception):
+                return
+            for k in keys:
+                if k not in sent:
+                    self.viol("routing", "payload-never-sent-but-call-succeeded",
+                              "payload %r of call %d (acks=0) never reached a connection yet the call succeeded "
+                              "with %r" % (k, c.idx, res))
+            return
         if isinstance(res, Failure):
             if res.check(FailedPayloadsError):
                 resp = [(r.topic, r.partition) for r in res.value.responses]
